@@ -2,7 +2,7 @@
     driven through callbacks with pause / resume_at / stop commands. *)
 From Coq Require Import ZArith List Bool.
 From KV Require Import Base.IEEE Base.Outcome Base.Num Base.Corr C19.Model C19.ModelF32 C19.Run
-  C06.Model C06.Dur C06.Run C03.Model.
+  C06.Model C06.Dur C06.Run C03.Model C03.ModelStream.
 Import ListNotations.
 Local Open Scope Z_scope.
 
@@ -13,8 +13,17 @@ Definition mk_tw (t : rtw) : tween f64 :=
 Inductive rcb :=
 | RCb (pause : option rtw) (resume : option (rstart * rtw)) (stop : option rtw)
       (lens : list Z) (dt : Z) (clocks : list (Z * Z * Z * Z)).
+(** a callback of a streaming sound: what the decoder thread did since the previous callback (frames pushed:
+    (real frame?, source index); flags: 1 = reached_end set, 2 = encountered_error set, 3 = both), then the
+    callback itself *)
+Inductive rscb :=
+| RSCb (push : list (Z * Z)) (flags : Z) (cb : rcb).
 Inductive case :=
-| CSound (n start lp : Z) (st : rstart) (fade_in : option rtw) (cbs : list rcb) (tab : list (Z * Z * Z)).
+| CSound (n start lp : Z) (st : rstart) (fade_in : option rtw) (cbs : list rcb) (tab : list (Z * Z * Z))
+(** a real streaming sound of DC frames whose decoder thread is paced by the harness *)
+| CStream (start : Z) (st : rstart) (fade_in : option rtw) (cbs : list rscb) (tab : list (Z * Z * Z))
+(** a real static sound played in reverse with nothing to play ([n] frames, start position >= [n]) *)
+| CEnded (n lp : Z) (st : rstart) (fade_in : option rtw) (cbs : list rcb) (tab : list (Z * Z * Z)).
 
 Section Run.
   Variable tab : list (Z * Z * Z).
@@ -48,10 +57,42 @@ Section Run.
         | Hang => [2000]
         end
     end.
+
+  (** *** streaming *)
+  Definition st_process_all (s : stream f64 f32) (lens : list Z) (dt : f64) (i : info f64)
+    : outcome (stream f64 f32 * list Z) :=
+    fold_left (fun acc len =>
+                 let! (s, outs) := acc in
+                 let! (s', o) := stream_process powf_none f32 lerp32 identity32 f32 amp32 gain32 (Z32 0) s (Z.to_nat len) dt i in
+                 Ok (s', outs ++ map bits_of_f32 o)) lens (Ok (s, [])).
+  Definition st_apply_env (s : stream f64 f32) (push : list (Z * Z)) (flags : Z) : stream f64 f32 :=
+    let s := fold_left (fun s '(p, ix) => stream_env f32 s (EPush (negb (p =? 0)) ix)) push s in
+    let s := if Z.odd flags then stream_env f32 s EEnd else s in
+    if 2 <=? flags then stream_env f32 s EErr else s.
+  Fixpoint go_stream (s : stream f64 f32) (cbs : list rscb) : list Z :=
+    match cbs with
+    | [] => []
+    | RSCb push flags (RCb p r st lens dt clocks) :: cbs' =>
+        let c := {| c_pause := option_map mk_tw p;
+                    c_resume := option_map (fun '(s0, t) => (mk_start s0, mk_tw t)) r;
+                    c_stop := option_map mk_tw st |} in
+        let s0 := st_apply_env s push flags in
+        let s1 := stream_on_start f32 silence32 identity32 s0 c in
+        match st_process_all s1 lens (f64_of_bits dt) (mk_info clocks []) with
+        | Ok (s2, outs) =>
+            st_mirror s2 :: st_position s1 :: (if stream_finished f32 s2 then 1 else 0) :: outs ++ go_stream s2 cbs'
+        | Panic k => [1000 + panic_code k]
+        | Hang => [2000]
+        end
+    end.
 End Run.
 
 Definition run (c : case) : list Z :=
   match c with
   | CSound n start lp st fade_in cbs tab =>
       go tab (sound_new f32 silence32 identity32 n start (negb (lp =? 0)) (mk_start st) (option_map mk_tw fade_in)) cbs
+  | CStream start st fade_in cbs tab =>
+      go_stream tab (stream_new f32 silence32 identity32 start (mk_start st) (option_map mk_tw fade_in)) cbs
+  | CEnded n lp st fade_in cbs tab =>
+      go tab (sound_new_from f32 silence32 identity32 (inner_ended n (negb (lp =? 0))) (mk_start st) (option_map mk_tw fade_in)) cbs
   end.
